@@ -159,8 +159,8 @@ PLANS["C16"] = {
              "(reduced alphabet + free) on original and copy; after the copy both conform to the same model and report the same parameters, afterwards a call on one object must leave the full "
              "observable dump of the other unchanged and both still solve to their own model's answer; family 'lowp': QScopy_prob_mpq_dbl and QScopy_prob_mpq_mpf at 6 precisions on every LP of a "
              "number-rich family (0, 1, -1, 1/3, 2^53+1, 3*2^-1074, 10^30, infinite bounds) checked entry by entry (1 ulp / 2^(1-prec) relative; zero to zero; infinity to the target's infinity; "
-             "identical sparsity structure, senses and parameters); family 'cpar': start problem x optional edit x 12 parameter settings (pricing, scaling, iteration limit 1/2, objective limits on both sides "
-             "of the optimum) set before the copy x 4 entry points: original and copy solved cold by the same entry must return the same value, status and optimum (shows that what the parameters do - derived fields - was copied, not only what the getters return)"),
+             "identical sparsity structure, senses and parameters); family 'cpar': start problem x optional edit x 14 parameter settings (pricing, scaling, devex pricing with scaling off, iteration limit 1/2, objective limits on both sides "
+             "of the optimum) set before the copy x 4 entry points x 2 orders (copy before any solve; original solved first, copy solved and freed, original re-solved from its own state): original and copy must return the same value, status and optimum and the original must survive its copy (shows that what the parameters do - derived fields - was copied, not only what the getters return)"),
     "quick": [fam("cpar-prod", "prod", "cpar", {}, weight=2, crash_props=["C17", "C16"]),
               fam("lowp-SN1-prod", "prod", "lowp", {"fam": "SN1"}, weight=2, crash_props=["C17", "C16"]),
               fam("copy-s1-san", "san", "copy", {"steps": 1}, weight=3, crash_props=["C17", "C16"])],
@@ -169,7 +169,7 @@ PLANS["C16"] = {
                  fam("copy-s1-san", "san", "copy", {"steps": 1}, weight=3, crash_props=["C17", "C16"]),
                  fam("lowp-SN1-san", "san", "lowp", {"fam": "SN1"}, weight=2, crash_props=["C17", "C16"]),
                  fam("cpar-prod", "prod", "cpar", {}, weight=2, crash_props=["C17", "C16"]), fam("cpar-san", "san", "cpar", {}, weight=3, crash_props=["C17", "C16"])],
-    "bounds": {"quick": "1 step after the copy (26800 items); 72576 number-rich LP indices x 7 targets; 25728 (start, edit, parameter, entry) items", "thorough": "2 interleaved steps after the copy (1.2M histories); cpar also on the sanitizer build"},
+    "bounds": {"quick": "1 step after the copy (26800 items); 72576 number-rich LP indices x 7 targets; 67536 (start, edit, parameter, entry, order) items", "thorough": "2 interleaved steps after the copy (1.2M histories); cpar also on the sanitizer build"},
     "evidence": {"states": ["histories", "instances"], "transitions": ["api_transitions", "executions"], "nontrivial": ["histories", "instances_nontrivial"]},
     "assumptions": HIST_ASSUME,
 }
